@@ -2041,6 +2041,11 @@ def value_attr(it, v, a, n):
                     if 'classmethod' in decs_:
                         return Bound(nt, f_)
                     return Bound(v, f_)
+                if a in c_.class_attrs and a not in nt.fields:
+                    # a constant of the class body that is not a field (no annotation): a plain class attribute
+                    r_ = it.class_attr(c_, a, None)
+                    if r_ is not None:
+                        return r_
         if a == '_asdict':
             def asd(it_, args, kw, node, _v=v):
                 d = DictV()
